@@ -56,6 +56,9 @@ int __sim_trap_wctomb(char* s, wchar_t w) { mt("wctomb"); return wctomb(s, w); }
 // races with every other thread doing the same (and with the application's own settings)
 typedef void (*sim_sighandler_t)(int);
 sim_sighandler_t __sim_trap_signal(int sig, sim_sighandler_t h) { mt("signal"); return signal(sig, h); }
+sim_sighandler_t __sim_trap___sysv_signal(int sig, sim_sighandler_t h) { mt("signal"); return signal(sig, h); }     // what `signal` is called in the strict ISO C dialects
+sim_sighandler_t __sim_trap_bsd_signal(int sig, sim_sighandler_t h) { mt("signal"); return signal(sig, h); }
+char* __sim_trap___xpg_basename(char* p) { mt("basename"); return basename(p); }
 int __sim_trap_sigaction(int sig, const struct sigaction* a, struct sigaction* o) { if (a != nullptr) mt("sigaction"); return sigaction(sig, a, o); }
 int __sim_trap_sigprocmask(int how, const sigset_t* s, sigset_t* o) { if (s != nullptr) mt("sigprocmask"); return sigprocmask(how, s, o); }
 mode_t __sim_trap_umask(mode_t m) { mt("umask"); return umask(m); }
